@@ -699,13 +699,131 @@ def _replace_in(root: ast.AST, target: ast.AST, new: ast.AST) -> bool:
     return False
 
 
+_PURE_STATIC = {"int.from_bytes", "int.to_bytes", "bytes.fromhex", "struct.pack", "struct.unpack", "struct.unpack_from", "struct.calcsize",
+                "math.ceil", "math.floor", "math.log", "math.log2", "math.pow", "math.sqrt"}
+
+
+_PURE_SELF_METHODS: set = set()          # per module: methods that store nothing and call nothing harmful (set by canonicalise)
+
+
+def _pure_self_methods(tree: ast.Module) -> set:
+    """Names of methods that, in every class of the module that defines them, store no attribute or item, declare no global and
+    call only harmless things or other such methods of self (fixed point)."""
+    defs = {}
+    for c in [n for n in tree.body if isinstance(n, ast.ClassDef)]:
+        for m in [n for n in c.body if isinstance(n, ast.FunctionDef)]:
+            defs.setdefault(m.name, []).append(m)
+            defs.setdefault(f"_{c.name}{m.name}" if m.name.startswith("__") and not m.name.endswith("__") else m.name, []).append(m)
+    pure = set(defs)
+    global _PURE_SELF_METHODS
+    changed = True
+    while changed:
+        changed = False
+        _PURE_SELF_METHODS = pure
+        for name in sorted(pure):
+            ok = True
+            for m in defs[name]:
+                if any(isinstance(x, (ast.Attribute, ast.Subscript)) and isinstance(x.ctx, (ast.Store, ast.Del)) for x in ast.walk(m)) \
+                        or any(isinstance(x, (ast.Global, ast.Nonlocal, ast.Yield, ast.YieldFrom, ast.Await, ast.Delete)) for x in ast.walk(m)) or _harmful_calls(m):
+                    ok = False
+            if not ok:
+                pure = pure - {name}
+                changed = True
+                break
+    _PURE_SELF_METHODS = pure
+    return pure
+
+
+def _harmful_calls(e: ast.AST):
+    """Calls that may change state the caller cannot see from here or that may block while another thread changes it: everything
+    but pure built-ins, the static functions of _PURE_STATIC and read-only methods (_PURE_METHODS) on a plain local name."""
+    out = []
+    for x in ast.walk(e):
+        if not isinstance(x, ast.Call):
+            continue
+        f = x.func
+        if isinstance(f, ast.Name) and (f.id in _PURE_BUILTINS or f.id in ("hasattr", "getattr", "repr", "format", "pretty_index") or f.id.endswith(("Error", "Exception", "Warning"))):
+            continue                    # pure built-ins; exception constructors (the repository's are plain data holders)
+        if isinstance(f, ast.Attribute) and isinstance(f.value, ast.Constant):
+            continue                    # a method of a literal ('x'.join, b''.ljust)
+        if isinstance(f, ast.Attribute) and isinstance(f.value, ast.Name) and f.value.id == "self" and f.attr in _PURE_SELF_METHODS:
+            continue                    # a method of self that stores nothing and calls nothing harmful
+        if isinstance(f, ast.Attribute) and isinstance(f.value, ast.Name):
+            if f"{f.value.id}.{f.attr}" in _PURE_STATIC:
+                continue
+            if f.value.id != "self" and f.attr in _PURE_METHODS:
+                continue
+        if isinstance(f, ast.Attribute) and f.attr in ("to_bytes", "ljust", "rjust", "decode", "encode", "upper", "lower", "strip", "rstrip", "islower", "hex", "bit_length") \
+                and not isinstance(f.value, ast.Name):
+            continue                    # methods of immutable built-in values (int, bytes, str)
+        out.append(x)
+    return out
+
+
+def _harm_before_use(span, uses) -> bool:
+    """May a harmful call (see _harmful_calls) run after the first statement of `span` starts and before one of `uses` is
+    evaluated?  Units (simple statements, tests of if/while, iterables of for) are taken in source order, which for code
+    without loops contains every execution order; two units in opposite branches of one if cannot follow each other; a loop
+    that contains a use must not contain a harmful call at all."""
+    units = []          # (scope node, path) in source order; path = tuple of (id(if-node), branch) entries
+
+    def rec(stmts, path, in_loop):
+        for st in stmts:
+            if isinstance(st, (ast.FunctionDef, ast.ClassDef)):
+                continue
+            if isinstance(st, ast.If):
+                units.append((st.test, path, in_loop))
+                rec(st.body, path + ((id(st), 0),), in_loop)
+                rec(st.orelse, path + ((id(st), 1),), in_loop)
+            elif isinstance(st, (ast.For, ast.While)):
+                units.append((st.iter if isinstance(st, ast.For) else st.test, path, st))
+                rec(st.body, path, st)
+                rec(st.orelse, path, in_loop)
+            elif isinstance(st, ast.Try):
+                rec(st.body, path, in_loop)
+                for k, h in enumerate(st.handlers):
+                    rec(h.body, path, in_loop)
+                rec(st.orelse, path, in_loop)
+                rec(st.finalbody, path, in_loop)
+            elif isinstance(st, ast.With):
+                for it in st.items:
+                    units.append((it.context_expr, path, in_loop))
+                rec(st.body, path, in_loop)
+            else:
+                units.append((st, path, in_loop))
+    rec(span, (), None)
+
+    def exclusive(p, q):
+        d = dict(p)
+        return any(k in d and d[k] != b for k, b in q)
+    use_units = [(k, u) for k, (sc, _p, _l) in enumerate(units) for u in uses if any(u is y for y in ast.walk(sc))]
+    if len({id(u) for _k, u in use_units}) != len({id(u) for u in uses}):
+        return True                     # a use in a place this walk does not model
+    for k, u in use_units:
+        sc, path, loop = units[k]
+        if loop is not None and any(_harmful_calls(sc2) for sc2, _p2, l2 in units if l2 is loop):
+            return True
+        # inside the unit itself: harmful calls evaluated before the use
+        ev, reached = _eval_events(sc, u) if isinstance(sc, (ast.expr,) + _SIMPLE_STMTS) else ([], False)
+        if not reached or any(kind == "call" and _harmful_calls(e_) and not any(u is y for y in ast.walk(e_.func)) for kind, e_ in ev):
+            return True
+        for j in range(k):
+            sc2, path2, _l2 = units[j]
+            if exclusive(path2, path):
+                continue
+            hc = _harmful_calls(sc2)
+            if hc:
+                return True
+    return False
+
+
 def _impure_calls(e: ast.AST):
     return [x for x in ast.walk(e) if isinstance(x, ast.Call) and not (isinstance(x.func, ast.Name) and x.func.id in _PURE_BUILTINS)]
 
 
 _PURE_METHODS = {"tobytes", "ljust", "rjust", "decode", "encode", "hex", "upper", "lower", "strip", "rstrip", "lstrip", "replace", "startswith", "endswith",
                  "to_bytes", "get", "items", "keys", "values", "bit_length", "islower", "isupper", "pack", "unpack", "unpack_from", "format", "join", "split",
-                 "index", "count", "find", "copy", "group", "match", "search", "sub", "has_section", "has_option", "options", "sections", "isdigit",
+                 "index", "count", "find", "copy", "group", "match", "search", "sub", "has_section", "has_option", "options", "sections", "isdigit", "indices",
                  # codec methods of ODVariable (canopen/objectdictionary/__init__.py): they store nothing
                  "encode_raw", "decode_raw", "encode_phys", "decode_phys", "encode_desc", "decode_desc", "encode_bits", "decode_bits"}
 
@@ -802,6 +920,11 @@ def _stable_rhs(fn, blk, i, rhs, uses, params) -> bool:
             return False
         if isinstance(x, ast.Call) and roots and any(isinstance(a, ast.Name) and a.id in roots for a in list(x.args) + [k.value for k in x.keywords]) \
                 and not (isinstance(x.func, ast.Name) and x.func.id in _PURE_BUILTINS):
+            return False
+    if attrs:
+        # a field is read: between the assignment and a use nothing may run that could store it behind our back or block while
+        # another thread does (a method of self, a callback, a wait, a queue get, a send that is answered synchronously)
+        if _harm_before_use(after[:last + 1], uses):
             return False
     return True
 
@@ -1454,6 +1577,12 @@ def _inline_fresh_temps(fn: ast.FunctionDef, known: set, multi: bool = True) -> 
                         or (isinstance(root, ast.Name) and root.id != "self" and len(stores.get(root.id, [])) > 0 and root.id not in params) \
                         or any(isinstance(x, (ast.FunctionDef, ast.Lambda)) and x is not fn and any(isinstance(y, ast.Name) and y.id == t for y in ast.walk(x)) for x in ast.walk(fn))
                     later = all(any(u is y for later_st in blk[i + 1:] for y in ast.walk(later_st)) for u in loads[t])
+                    if later and not clash:
+                        # nothing between the alias and one of its uses may re-bind the chain behind our back (see _harmful_calls);
+                        # a call made *through* the alias is the call the original made on the chain itself
+                        idx_last = max(k for k in range(i + 1, len(blk)) if any(u is y for u in loads[t] for y in ast.walk(blk[k])))
+                        if _harm_before_use(blk[i + 1:idx_last + 1], loads[t]):
+                            clash = True
                     if not clash and later:
                         for u in loads[t]:
                             _replace_in(fn, u, _copy.deepcopy(chain))
@@ -1619,6 +1748,7 @@ def canonicalise(tree: ast.Module, rel: str = "") -> ast.Module:
         canon.rename_fresh_members(tree, ref)
         canon.restore_inlined_helpers(tree, ref)
     ctor = _ctor_fields(tree) if ref is not None else {}
+    _pure_self_methods(tree)
     if names or ref is not None:
         def walk(node, prefix):
             for n in getattr(node, "body", []):
